@@ -127,6 +127,12 @@ def build_registry(san="asan"):
     return build("run_registry", ["run_registry.c", "vport.c"], CORE, san=san, libs=("-lpthread",))
 
 
+def build_linuxport(san="asan"):
+    wraps = "-Wl," + ",".join("--wrap=" + f for f in ("sendto", "getifaddrs", "freeifaddrs", "gethostname", "nanosleep", "clock_gettime"))
+    return build("run_linuxport", ["run_linuxport.c"], CORE + ["os/linux/lltd_port.c"], san=san,
+                 extra_flags=["-I" + os.path.join(REPO, "os/linux"), wraps])
+
+
 def build_responder(san="asan"):
     return build("run_responder", ["run_responder.c", "vport.c"], CORE + ["os/esp32/daemon/lltd_esp32.c"], san=san)
 
